@@ -743,6 +743,20 @@ class CallMixin:
             acc = ops.pure_binop("Add", acc, x)
         return [(st, acc)]
 
+    def b_next(self, st, args, kwargs, node):
+        """next(<generator expression>[, default]) written inline: the generator is fresh and used once, so its first element
+        (of the eagerly evaluated element tuple) or the default is the result.  Any other iterator keeps the havoc model."""
+        if node is not None and getattr(node, "args", None) and isinstance(node.args[0], ast.GeneratorExp) and not kwargs and len(args) in (1, 2):
+            items = self.concrete_items(st, args[0])
+            if items is not None:
+                if items:
+                    return [(st, items[0])]
+                if len(args) == 2:
+                    return [(st, args[1])]
+                self.raise_in(st, self.mk_exc("StopIteration"))
+                return []
+        return self.havoc_call(st, "next", args, node)
+
     def b_any(self, st, args, kwargs, node):
         items = self.concrete_items(st, args[0])
         if items is None:
